@@ -15,7 +15,9 @@ ExclFor(n) == LET b == n.ip IN
    { <<>>,
      << [ip |-> b, len |-> 32] >>,
      << [ip |-> <<b[1], b[2], b[3], (b[4] + 1) % 256>>, len |-> 32], [ip |-> b, len |-> 30] >>,
-     << [ip |-> b, len |-> 26], [ip |-> b, len |-> 28] >>,                                   \* nested
+     << [ip |-> b, len |-> 26], [ip |-> b, len |-> 28] >>,                                   \* nested, wide then narrow
+     << [ip |-> b, len |-> 30], [ip |-> b, len |-> 25] >>,                                   \* nested, narrow then wide (same base address)
+     << [ip |-> b, len |-> 32], [ip |-> <<b[1], b[2], b[3], 0>>, len |-> 24], [ip |-> b, len |-> 32] >>,   \* a host, then the net around it, then the host again
      << [ip |-> <<b[1], b[2], b[3], 128>>, len |-> 25], [ip |-> <<b[1], b[2], b[3], 192>>, len |-> 26], [ip |-> <<1, 2, 3, 4>>, len |-> 32] >>,
      << [ip |-> <<b[1], b[2], 0, 0>>, len |-> 16] >>,                                         \* covers the whole target
      << [ip |-> <<203, 0, 113, 0>>, len |-> 24] >> }                                          \* unrelated
